@@ -370,7 +370,7 @@ structure PreA (c : DrawCfg) (s : Scr) (t : ATerm) : Prop where
 
 /-- **every command of a draw is admissible**, whatever the display holds -/
 theorem draw_admits {c : DrawCfg} (hrw : RwOk c.rw) (hrb : RwB c.rw) (hp : Utf8Payload c) (hct : c.Plain)
-    (hhide : c.hasHide = true) {s : Scr} {t : ATerm} (pre : PreA c s t) : AdmitAll c t (s.draw c).2 := by
+    {s : Scr} {t : ATerm} (pre : PreA c s t) : AdmitAll c t (s.draw c).2 := by
   rw [draw_eq]; simp only
   generalize hs0 : ({ s with cx := -1, cy := -1, curstyle := styleInvalid } : Scr) = s0
   have inv0 : AInv c s0 t := by
@@ -380,24 +380,36 @@ theorem draw_admits {c : DrawCfg} (hrw : RwOk c.rw) (hrb : RwB c.rw) (hp : Utf8P
             kpen := by intro h; exact absurd rfl h,
             ext := ⟨pre.ext.buf, pre.ext.style, pre.ext.size, pre.ext.ccol⟩ }
   have hcx0 : s0.cx = -1 ∧ s0.curstyle = styleInvalid := by rw [← hs0]; exact ⟨rfl, rfl⟩
-  -- hide
-  have e1 : s0.hideCursor c = (s0, [Cmd.hideCursor]) := by simp [Scr.hideCursor, hhide]
+  -- hide: the hide string, or (terminals without one) the cursor parked just outside the bottom-right corner
+  obtain ⟨s1, c1, e1, ad1, inv1, hout, hsty⟩ : ∃ s1 c1, s0.hideCursor c = (s1, c1) ∧ AdmitAll c t c1 ∧
+      AInv c s1 (t.applyAll c1) ∧ ¬ s1.cells.inRange s1.cx s1.cy ∧ s1.curstyle = styleInvalid := by
+    cases hh : c.hasHide
+    · refine ⟨{ s0 with cx := s0.cells.w, cy := s0.cells.h }, [.goto s0.cells.w s0.cells.h], by simp [Scr.hideCursor, hh],
+        ?_, ?_, ?_, hcx0.2⟩
+      · have := inv0.buf.cw; have := inv0.buf.ch; have := inv0.ext.size
+        exact ⟨⟨by omega, by omega, by omega, by omega⟩, trivial⟩
+      · exact { tw := inv0.tw, th := inv0.th, buf := ⟨inv0.buf.cw, inv0.buf.ch, inv0.buf.wok, inv0.buf.valid⟩,
+                kcur := by intro h; simp only [inRange_iff] at h; omega,
+                kpen := by intro h; exact absurd hcx0.2 h,
+                ext := ⟨inv0.ext.buf, inv0.ext.style, inv0.ext.size, inv0.ext.ccol⟩ }
+      · intro h; simp only [inRange_iff] at h; omega
+    · refine ⟨s0, [.hideCursor], by simp [Scr.hideCursor, hh], ⟨hh, trivial⟩, ?_, ?_, hcx0.2⟩
+      · exact { tw := inv0.tw, th := inv0.th, buf := inv0.buf, kcur := inv0.kcur, kpen := inv0.kpen, ext := inv0.ext }
+      · intro h; simp only [inRange_iff, hcx0.1] at h; omega
   rw [e1]; simp only
-  have inv1 : AInv c s0 (t.applyAll [Cmd.hideCursor]) :=
-    { tw := inv0.tw, th := inv0.th, buf := inv0.buf, kcur := inv0.kcur, kpen := inv0.kpen, ext := inv0.ext }
-  generalize ht1 : t.applyAll [Cmd.hideCursor] = t1 at inv1
+  generalize ht1 : t.applyAll c1 = t1 at inv1
   -- clear
-  have S2 : AdmitAll c t1 (if s0.clear then s0.clearScreen else (s0, [])).2 ∧
-      AInv c (if s0.clear then s0.clearScreen else (s0, [])).1 (t1.applyAll (if s0.clear then s0.clearScreen else (s0, [])).2) := by
-    cases hcl : s0.clear
+  have S2 : AdmitAll c t1 (if s1.clear then s1.clearScreen else (s1, [])).2 ∧
+      AInv c (if s1.clear then s1.clearScreen else (s1, [])).1 (t1.applyAll (if s1.clear then s1.clearScreen else (s1, [])).2) := by
+    cases hcl : s1.clear
     · simp only [Bool.false_eq_true, if_false]; exact ⟨trivial, inv1⟩
     · simp only [if_true, Scr.clearScreen]
       refine ⟨⟨trivial, trivial⟩, ?_⟩
       exact { tw := inv1.tw, th := inv1.th, buf := ⟨inv1.buf.cw, inv1.buf.ch, inv1.buf.wok, inv1.buf.valid⟩,
-              kcur := by intro h; simp only [inRange_iff, hcx0.1] at h; omega,
-              kpen := by intro h; exact absurd hcx0.2 h,
+              kcur := fun h => absurd h hout,
+              kpen := by intro h; exact absurd hsty h,
               ext := ⟨inv1.ext.buf, inv1.ext.style, inv1.ext.size, inv1.ext.ccol⟩ }
-  generalize (if s0.clear then s0.clearScreen else (s0, [])) = r2 at S2
+  generalize (if s1.clear then s1.clearScreen else (s1, [])) = r2 at S2
   obtain ⟨ad2, inv2⟩ := S2
   generalize ht2 : t1.applyAll r2.2 = t2 at inv2
   -- the double loop
@@ -408,13 +420,17 @@ theorem draw_admits {c : DrawCfg} (hrw : RwOk c.rw) (hrb : RwB c.rw) (hp : Utf8P
   have S4 : AdmitAll c t3 (r3.1.showCursor c).2 := by
     unfold Scr.showCursor; simp only
     split
-    · simp [Scr.hideCursor, hhide, AdmitAll, Admit]
+    · cases hh : c.hasHide
+      · have := inv3.buf.cw; have := inv3.buf.ch; have := inv3.ext.size
+        simp only [Scr.hideCursor, hh, Bool.false_eq_true, if_false, AdmitAll, Admit, and_true]
+        exact ⟨by omega, by omega, by omega, by omega⟩
+      · simp [Scr.hideCursor, hh, AdmitAll, Admit]
     · rename_i hin
       have := inv3.buf.cw; have := inv3.buf.ch; have := inv3.ext.size
       exact ⟨⟨by omega, by omega, by omega, by omega⟩, inv3.ext.ccol, trivial⟩
-  have ha : AdmitAll c t ([Cmd.hideCursor] ++ r2.2 ++ r3.2 ++ (r3.1.showCursor c).2) := by
+  have ha : AdmitAll c t (c1 ++ r2.2 ++ r3.2 ++ (r3.1.showCursor c).2) := by
     rw [admitAll_append, admitAll_append, admitAll_append]
-    refine ⟨⟨⟨⟨trivial, trivial⟩, ?_⟩, ?_⟩, ?_⟩
+    refine ⟨⟨⟨ad1, ?_⟩, ?_⟩, ?_⟩
     · rw [ht1]; exact ad2
     · rw [applyAll_append, ht1, ht2]; exact ad3
     · rw [applyAll_append, applyAll_append, ht1, ht2, ht3]; exact S4
